@@ -17,7 +17,7 @@ ASSUME = ['float64; identities judged to 1e-12 relative to ||A|| (squared quanti
           'a tolerance within 1e-12 of a cumulative weight accepts both neighbouring truncation ranks (the statement is about real-number weights)']
 
 TOL = 1e-12
-SPECTRA = ['decay', 'flat', 'pairs', 'rankdef', 'crossdeg', 'steep', 'exact_ties']
+SPECTRA = ['decay', 'flat', 'pairs', 'rankdef', 'crossdeg', 'steep', 'exact_ties', 'abyss']
 
 
 def designed_matrix(q0, q1, seed, spectrum):
@@ -45,6 +45,9 @@ def designed_matrix(q0, q1, seed, spectrum):
             sv = 1.0 / (1 + np.arange(k))      # same values in every block: degenerate across blocks
         elif spectrum == 'steep':
             sv = 10.0 ** (-3.0 * np.arange(k) - bi)
+        elif spectrum == 'abyss':
+            # singular values more than eight decades apart inside one block (where squaring the matrix loses the small ones)
+            sv = 10.0 ** (-9.0 * np.arange(k) - bi)
         elif spectrum == 'exact_ties':
             # exactly repeated singular values: the block is a scaled partial permutation matrix (one entry per row / column),
             # so its singular values are the weights themselves, bit for bit
@@ -188,6 +191,15 @@ def tol_strategy(draw):
 @st.composite
 def gen_matrix_case(draw):
     q0, q1 = draw(charge_vectors())
+    if draw(st.sampled_from([False, False, False, True])):
+        # strongly elongated charge sectors (aspect ratio >= 8 with two or three states on the short side), as they occur at the
+        # boundary of a chain; either orientation
+        c = draw(st.integers(-2, 2))
+        short = [c] * draw(st.sampled_from([2, 3])) + [c + 1] * draw(st.sampled_from([0, 1]))
+        long_ = [c] * draw(st.integers(24, 30)) + [c + 1] * draw(st.sampled_from([0, 9]))
+        if draw(st.booleans()):
+            long_ = long_[::-1]
+        q0, q1 = (short, long_) if draw(st.booleans()) else (long_, short)
     style = draw(st.sampled_from(SPECTRA + SPECTRA + ['complex', 'real', 'dupcols', 'zeroblock', 'zero']))
     return {'q0': q0, 'q1': q1, 'seed': draw(st.integers(0, 2**31 - 1)), 'style': style, 'tol': draw(tol_strategy())}
 
